@@ -101,6 +101,11 @@ func ModOps(full bool) []Op {
 	}
 	add("AddRequire", "a.com/x/v2", "v2.0.0")
 	add("DropRequire", "a.com/x/v2")
+	// directory paths with white space that is not ASCII (must be written quoted)
+	add("AddReplace", "a.com/x", "", "../dir\u00a0x", "")
+	if full {
+		add("AddReplace", "b.com/y", "v1.0.0", "../dir\u3000y", "")
+	}
 	// paths spelled like keywords
 	add("AddRequire", "require", "v1.1.0")
 	add("DropRequire", "require")
@@ -175,6 +180,8 @@ func WorkOps(full bool) []Op {
 		add("DropGodebug", k)
 	}
 	add("AddUse", "./it's", "")
+	add("AddUse", "./a\u3000b", "")
+	add("DropUse", "./a\u3000b")
 	for _, u := range []string{"./a", "./b", "./dir with space"} {
 		add("AddUse", u, "")
 		add("AddNewUse", u, "")
